@@ -1137,6 +1137,26 @@ fn check_paint(
                     layout
                 );
                 ctx.feat("paint-in-rect.checked");
+                // (3b) an image cell stands for the whole image: the cells it covers on screen
+                // must lie inside the rectangle as well
+                if let (Kind::Image { .. }, surf_n_term::render::CellKind::Image(image)) =
+                    (*kind, rendered.cell(row, col).kind())
+                {
+                    let cells = image.size_cells(Size::new(cfg.ppc.0, cfg.ppc.1));
+                    ensure!(
+                        (row + cells.height) as u128 <= own.r1 && (col + cells.width) as u128 <= own.c1,
+                        "paint-outside-layout:image:area",
+                        "leaf {id} (image) put an image of {}x{} cells at ({row},{col}) which does not fit its clipped rectangle rows {}..{} cols {}..{}; cfg={cfg:?} layout={:?}",
+                        cells.height,
+                        cells.width,
+                        own.r0,
+                        own.r1,
+                        own.c0,
+                        own.c1,
+                        layout
+                    );
+                    ctx.feat("paint-in-rect.image-area-checked");
+                }
                 // (4)
                 if !root_at_origin {
                     continue;
